@@ -134,6 +134,16 @@ static void run_words(uint64_t idx, pv_rng* rng) {
                 if (li >= 4 && li < nl) { t.n = 0; for (int i = 0; i < after; ++i) t.c[t.n++] = cp[i]; t.c[t.n++] = 0x301; try_token(L, w, &t, false, "extra-accent-on-prefix-end", rng, rot++); }
             }
         }
+        /* code points right at the edges of the accent block U+0300..U+036F (and a few look-alikes): only the block itself is ignored */
+        if (L->accents) {
+            static const uint32_t edge[] = { 0x2ff, 0x370, 0x374, 0x37a, 0x37f, 0x380, 0x2c6, 0xb4, 0x384 };
+            for (unsigned e = 0; e < sizeof edge / sizeof *edge; ++e) {
+                if ((w + e) % 3) continue;
+                cps t; int at = ((w >> 2) & 1) ? n : (nl > 4 ? letter_at[4] : n);      /* at the very end, or right after the 4th letter */
+                t.n = 0; for (int i = 0; i < at; ++i) t.c[t.n++] = cp[i]; t.c[t.n++] = edge[e]; if (e & 1) for (int i = at; i < n; ++i) t.c[t.n++] = cp[i];
+                try_token(L, w, &t, false, "accent-block-edge", rng, rot++);
+            }
+        }
         if (latin && cp[0] >= 'a' && cp[0] <= 'z') { cps t; t.n = n; memcpy(t.c, cp, (size_t)n * 4); t.c[0] -= 32; try_token(L, w, &t, false, "uppercase-initial", rng, rot++); }
         { cps t; t.n = 0; try_token(L, w, &t, false, "empty-token", rng, rot++); }
         PV_COUNT("words.swept", 1);
@@ -186,8 +196,42 @@ static void run_mixed(uint64_t idx, pv_rng* rng) {
     free(in);
 }
 
+/* tokens that are far longer than any word but start like one: letter counters of any width must not wrap */
+static uint64_t n_long(void) { return (uint64_t)pv_nlangs * pv_scaled(250, 4000); }
+static void run_long(uint64_t idx, pv_rng* rng) {
+    pv_mlang* L = &pv_langs[idx % (uint64_t)pv_nlangs];
+    if (!L->lib) return;
+    unsigned w = pv_randn(rng, PV_NWORDS);
+    const uint32_t* cp = L->cp[w]; int n = L->ncp[w];
+    static const int LENS[] = { 250, 254, 255, 256, 257, 258, 259, 260, 261, 262, 263, 264, 265, 266, 268, 270, 280, 300 };
+    int total = LENS[pv_randn(rng, sizeof LENS / sizeof *LENS)];
+    int head = 1 + (int)pv_randn(rng, (uint32_t)n);                 /* how many code points of the word lead the token */
+    /* build phrase by hand: 15 shortest-possible neighbours keep the whole input below the buffer size */
+    unsigned coin = pv_gen_coin(rng), d[16]; pv_mseed m; int p = (int)pv_randn(rng, 16);
+    pv_gen_place(rng, p, w, coin, false, 7, d, &m);
+    char phrase[8192]; size_t k = 0;
+    uint32_t filler = L->prefix ? (uint32_t)('a' + pv_randn(rng, 26)) : cp[pv_randn(rng, (uint32_t)n)];
+    for (int i = 0; i < 16; ++i) {
+        if (i == p) { for (int c = 0; c < head; ++c) k += (size_t)pv_utf8_encode(cp[c], phrase + k); for (int c = head; c < total; ++c) k += (size_t)pv_utf8_encode(pv_randn(rng, 3) ? filler : (uint32_t)('a' + pv_randn(rng, 26)), phrase + k); }
+        else { const char* t = L->word[d[i]]; size_t l = strlen(t); memcpy(phrase + k, t, l); k += l; }
+        if (i < 15) phrase[k++] = ' ';
+    }
+    phrase[k] = 0;
+    char* nf = pv_nfkd_alloc(phrase); bool fits = strlen(nf) < POLYSEED_STR_SIZE; free(nf);
+    if (!fits) { PV_COUNT("long.skipped_does_not_fit_the_buffer", 1); return; }
+    char* in = pv_exact_str(phrase);
+    pv_mdecode md; pv_m_decode(in, coin, L, 7, &md);
+    polyseed_data* s = NULL; int st = pv_api_decode_explicit(in, coin, L->lib, &s);
+    PV_COUNT("evaluations", 1); pv_countf(1, "long.tokens.%s", pv_status_name(st));
+    if (md.status >= 0 && st != md.status) { char key[128]; snprintf(key, sizeof key, "C08/overlong-token/%s", L->key); pv_violation(key, "%s: token of %d letters starting with %d letters of '%s' -> %s, model %s", L->name_en, total, head, L->word[w], pv_status_name(st), pv_status_name(md.status)); }
+    else PV_DISTINCT("nontrivial", pv_mix(pv_hash_str(in), coin));
+    if (st == POLYSEED_OK) pv_api_free(s);
+    if (idx < 3) pv_sample("overlong-token", "%s: %d-letter token with the first %d letters of '%s' -> %s", L->name_en, total, head, L->word[w], pv_status_name(st));
+    free(in);
+}
+
 static void fini(void) { pv_set_flag("exhaustive.per_word_variants(es,fr,en always; all languages in thorough)", true); }
 int main(int argc, char** argv) {
-    static const pv_section secs[] = { { "words", n_words, run_words }, { "mixed", n_mixed, run_mixed } };
-    return pv_main(argc, argv, "C08", secs, 2, init, fini);
+    static const pv_section secs[] = { { "words", n_words, run_words }, { "mixed", n_mixed, run_mixed }, { "long", n_long, run_long } };
+    return pv_main(argc, argv, "C08", secs, 3, init, fini);
 }
